@@ -27,6 +27,7 @@ type Env struct {
 	inOld    bool
 	errs     *[]string
 	resolver func(name string) (TVal, bool) // extra name resolution (loop variables)
+	qdepth   int                             // inside a quantifier body: no fresh symbols may be introduced
 }
 
 func (e *Env) errorf(f string, a ...any) {
@@ -197,10 +198,29 @@ func (e *Env) Eval(c CExpr) TVal {
 		}
 		return mathInt(Ite(cond, e.scalar(a, "?:"), e.scalar(b, "?:")))
 	case *CQuant:
+		if c.Ranged {
+			saved, had := e.vars[c.Var]
+			var parts []Term
+			for k := c.Lo; k <= c.Hi; k++ {
+				e.vars[c.Var] = mathInt(Lit(k))
+				parts = append(parts, e.EvalBool(c.Body))
+			}
+			if had {
+				e.vars[c.Var] = saved
+			} else {
+				delete(e.vars, c.Var)
+			}
+			if c.Forall {
+				return mathBool(And(parts...))
+			}
+			return mathBool(Or(parts...))
+		}
 		name := e.x.ctx.boundVar(c.Var)
 		saved, had := e.vars[c.Var]
 		e.vars[c.Var] = mathInt(name)
+		e.qdepth++
 		body := e.EvalBool(c.Body)
+		e.qdepth--
 		if had {
 			e.vars[c.Var] = saved
 		} else {
@@ -463,6 +483,13 @@ func (e *Env) evalCall(c *CCall) TVal {
 		}
 		return 0, false
 	}
+	if e.qdepth > 0 {
+		switch c.Fn {
+		case "tdiv", "trem", "fdiv", "fmod", "cdiv", "rhe", "bitlen", "pow2":
+			e.errorf("%s is not supported under a quantifier", c.Fn)
+			return mathInt("0")
+		}
+	}
 	switch c.Fn {
 	case "old":
 		saved := e.inOld
@@ -525,6 +552,9 @@ func (e *Env) evalCall(c *CCall) TVal {
 	case "pow10":
 		if k, ok := litArg(0); ok && k >= 0 {
 			return mathInt(Pow10(k))
+		}
+		if e.qdepth > 0 {
+			return mathInt(app("pow10", argT(0)))
 		}
 		return mathInt(ctx.Pow10Sym(argT(0)))
 	case "pow2":
